@@ -14,12 +14,16 @@ def build(tier):
                                   symargs=True, deepd=8 if quick else 24, deepc=8 if quick else 24, preargs=["p%d" % i for i in range(12 if quick else 40)])
     def nleaves(st):
         return sum(nleaves(x) if isinstance(x, list) else 1 for x in st)
+
+    def ntok(st):
+        return sum((2 + ntok(x)) if isinstance(x, list) else 1 for x in st)
     for st in ([["s", ["s", "s"], "s"], [["s"], "s"], ["s", ["s", ["s"]], ["s"], "s"]] if quick else
                [["s", ["s", "s"], "s"], [["s"], "s"], ["s", ["s", ["s"]], ["s"], "s"], [[], "s"], [["s", ["s", ["s", "s"]]]], ["s", "s", "s", ["s"]]]):
-        obs.append(vf.CH(f"C02.a generic invocation, argument structure {st}", "c02_generic.py", dict(STRUCT=st, L=2 if quick else 3, NCP=nleaves(st) * (2 if quick else 3)),
+      for ml in (False, True):
+        obs.append(vf.CH(f"C02.a generic invocation, argument structure {st}, {'one token per line' if ml else 'one line'}", "c02_generic.py", dict(MULTILINE=ml, STRUCT=st, L=2 if quick else 3, NCP=nleaves(st) * (2 if quick else 3), NTOK=max(1, ntok(st)), PT="Tuple[" + ", ".join(["int"] * max(1, ntok(st))) + "]"),
                          timeout=300 if quick else 1200, encodes=["cminx.aggregator.DocumentationAggregator.process_generic_command", "enterDocumented_command",
                                                                   "GenericCommandDocumentation.process", "Documenter.process_docs", "RSTWriter.to_text"],
-                         symbolic="the text of every argument", bound=f"argument structure {st} (lists = parenthesised groups)"))
+                         symbolic="the text of every argument; line and column of every argument token (arguments spread over several lines)", bound=f"argument structure {st} (lists = parenthesised groups)"))
     # C02.d grammar layer: dangling doccomments / annotation comments produce no parser event other than bracket_doccomment / nothing
     D = 2 if quick else 4
     obs.append(e2obs.ob_validate(D, tier))
